@@ -694,6 +694,7 @@ void DocumentBuilder::query_options(const char* key, const char* value)
 {
     if (key == nullptr) {
         handle_error(TypeException{"options tag found without attribute 'key'"});
+        return;
     }
     currentQuery->options.push_back(option_t{key, value == nullptr ? "" : value});
 }
@@ -735,7 +736,7 @@ void DocumentBuilder::expectation_value(const char* res, const char* type, const
         currentExpectation->status = query_status_t::Unknown;
     }
     currentExpectation->value_type = _type;
-    currentExpectation->value = value;
+    currentExpectation->value = (value == nullptr) ? "" : value;
 }
 
 void DocumentBuilder::expect_resource(const char* type, const char* value, const char* unit)
@@ -746,6 +747,7 @@ void DocumentBuilder::expect_resource(const char* type, const char* value, const
     }
     if (value == nullptr) {
         handle_error(TypeException{"missing value of resource in expectation"});
+        return;
     }
     currentExpectation->resources.push_back(
         resource_t{type, value, unit == nullptr ? std::nullopt : std::make_optional(unit)});
@@ -765,6 +767,7 @@ void DocumentBuilder::model_option(const char* key, const char* value)
 {
     if (key == nullptr) {
         handle_error(TypeException{"options tag found without attribute 'key'"});
+        return;
     }
     document.get_options().emplace_back(key, value == nullptr ? "" : value);
 }
